@@ -62,13 +62,15 @@ C05_MONITORS = {"ResponseIntegrity", "RequestIntegrity", "SeqConsecutive", "More
                 "SingleFaultRepaired", "Terminates", "AtMostOneOutcome"}
 
 
-def single_fault_traces(rc, kinds=("drop", "dup", "delay"), orders=("fifo", "timers"), frames=None):
+def single_fault_traces(rc, kinds=("drop", "dup", "delay", "shrink"), orders=("fifo", "timers"), frames=None):
     base = tsmlib.record(rc)
     out = [base]
     n = len(base["frames"])
     idx = range(1, n + 1) if frames is None else [i for i in frames if 1 <= i <= n]
     for kind in kinds:
         for i in idx:
+            if kind == "shrink" and not (base["frames"][i - 1]["k"] == "ACK" and base["frames"][i - 1]["win"] > 1):
+                continue            # only a segment ack granting more than one segment can be shrunk
             for o in orders:
                 out.append(tsmlib.record(rc, faults={i: kind}, order=o))
     return out
@@ -110,6 +112,9 @@ def main(tier, seed):
     tsmlib.run_mc(chk, "3x3_w2_f111", C(3, 3, maxdrop=1, maxdup=1, maxdelay=1), extra_invs=one)
     tsmlib.run_mc(chk, "2x4_w3_d2", C(2, 4, pwc=3, pws=3, maxdrop=2, maxdup=1), extra_invs=one)
     tsmlib.run_mc(chk, "1x3_w1", C(1, 3, pwc=1, pws=1, maxdrop=1, maxdup=1, maxdelay=1), extra_invs=one)
+    # a peer that shrinks the window it grants in the middle of a transfer (WindowRespectsAck)
+    tsmlib.run_mc(chk, "1x5_w4_shrink", C(1, 5, pwc=4, pws=4, maxshrink=1, maxdrop=1), extra_invs=one)
+    tsmlib.run_mc(chk, "5x1_w4_shrink", C(5, 1, pwc=4, pws=4, maxshrink=1, maxdup=1), extra_invs=one)
     if thorough:
         tsmlib.run_mc(chk, "4x4_w3_f211", C(4, 4, pwc=3, pws=3, maxdrop=2, maxdup=1, maxdelay=1), extra_invs=one)
         for w in range(1, 9):
@@ -162,6 +167,12 @@ def main(tier, seed):
         for t in single_fault_traces(rc):
             traces.append(t)
             chk.case(("sf2", seg, nq, nr, tuple(t["faults"].items()), t["order"]), nontrivial=True)
+    # (ii') a peer that shrinks the granted window in the middle of a longer transfer: later bursts must respect the newest grant
+    for nq, nr, w in ([(9, 1, 4), (1, 9, 4), (10, 10, 3), (12, 1, 8)] if thorough else [(9, 1, 4), (1, 9, 4)]):
+        rc = tsmlib.rig_cfg(seg=50, nq=nq, nr=nr, pwc=w, pws=w, maxsegs=None)
+        for t in single_fault_traces(rc, kinds=("shrink",), orders=("fifo",)):
+            traces.append(t)
+            chk.case(("shrink", nq, nr, w, tuple(t["faults"].items())), nontrivial=True)
     # (iii) beyond 256 segments (sequence numbers wrap), fault-free and with single faults around the wrap
     longs = [(1, 258, 8), (259, 1, 4)] + ([(1, 600, 127), (300, 300, 16)] if thorough else [])
     for nq, nr, w in longs:
@@ -198,8 +209,11 @@ def main(tier, seed):
 
 def replay(path, pid="C05", monitors=C05_MONITORS):
     body = json.load(open(path))
-    rp = body["replay"]
-    chk = Check(pid, "quick", body.get("seed", 0))
+    return replay_tsm(body["replay"], pid, monitors, body.get("seed", 0))
+
+
+def replay_tsm(rp, pid, monitors, seed=0):
+    chk = Check(pid, "quick", seed)
     rng = random.Random(rp["rng_seed"]) if rp.get("rng_seed") is not None else None
     faults = {int(k): v for k, v in (rp.get("faults") or {}).items()}
     t = tsmlib.record(rp["cfg"], faults=faults, order=rp.get("order", "fifo"), rng=rng,
